@@ -601,11 +601,11 @@ func isEnvFailure(status, tail string) bool {
 // slowStatus: the child was alive, logged no recovery error, and did not get to serve within a budget: on its own
 // this is a slow machine, not a node that cannot recover its data
 func slowStatus(status string) bool {
-	return status == "timeout" || status == "FAIL noleader" || status == "FAIL startraft not ready" || status == "FAIL staleread" ||
+	return strings.HasPrefix(status, "timeout") || status == "FAIL noleader" || status == "FAIL startraft not ready" || status == "FAIL staleread" ||
 		strings.HasPrefix(status, "FAIL noapi") || strings.HasPrefix(status, "noconnect")
 }
 
-var recoveryErrRe = regexp.MustCompile(`panic: |fatal error: |index out of range|no backup|checkpoint not exist|crc mismatch|wal: file not found|wal: snapshot not found|snap: |failed to restore|failed to recover|corrupt`)
+var recoveryErrRe = regexp.MustCompile(`panic: |fatal error: |index out of range|no backup|checkpoint not exist|crc mismatch|wal: file not found|wal: snapshot not found|snap: crc mismatch|snap: empty snapshot|failed to restore|failed to recover|corrupt`)
 
 // positiveEvidence: the start failed and there is evidence that the node cannot recover its data: it exited or
 // reported an error of its start (not a slow one), or its log holds a recovery error
@@ -641,19 +641,40 @@ func startRun(self string, cfg *childCfg, pa *portAlloc, dir string, rec *RunRec
 		panic(err)
 	}
 	status := ""
-	select {
-	case l := <-ch.lines:
-		status = l
-	case <-ch.exited:
+	// (the child has its own budgets: 90 s for the node, 60 s for the API, counted from the end of its start-up)
+	budget := time.After(150 * time.Second)
+	tick := time.NewTicker(2 * time.Second)
+	defer tick.Stop()
+	firstErr := time.Time{}
+wait:
+	for {
 		select {
 		case l := <-ch.lines:
 			status = l
-		default:
-			status = "exited"
+			break wait
+		case <-ch.exited:
+			select {
+			case l := <-ch.lines:
+				status = l
+			default:
+				status = "exited"
+			}
+			break wait
+		case <-budget:
+			status = "timeout"
+			break wait
+		case <-tick.C:
+			// alive, not serving, and its log holds a recovery error that it keeps retrying (a checkpoint that does not
+			// exist, a wal that cannot be read ...): 20 s after the first such line the start is given up as failed
+			if recoveryErrRe.MatchString(tailFile(logPath, 8000)) {
+				if firstErr.IsZero() {
+					firstErr = time.Now()
+				} else if time.Since(firstErr) > 20*time.Second {
+					status = "timeout (not serving; recovery error in its log)"
+					break wait
+				}
+			}
 		}
-	case <-time.After(150 * time.Second):
-		// (the child has its own budgets: 90 s for the node, 60 s for the API, counted from the end of its start-up)
-		status = "timeout"
 	}
 	rec.StartMs = time.Since(t0).Milliseconds()
 	lv := &live{ch: ch, evlog: evlog, t0: t0}
